@@ -141,6 +141,8 @@ def run(ctx):
                     back = None
                     got = 'err ' + wire.err_name(e)
                 cases.append(('read_xml', 'read_xml en ' + X.enc_batch(batch), got, desc))
+                # the same file through the XML reader written in Lean (Read/XmlText.lean) instead of lxml's parser
+                cases.append(('read_xml_text', 'read_xml_text en ' + enc_str(text), got, desc))
                 flat = [st.tree for sent in batch for st in sent]
                 if back is None or len(back) != len(flat):
                     ctx.fail(f'C&C XML written by depccg cannot be read back ({got[:80]})', desc, fingerprint=['xml-read'])
@@ -203,6 +205,7 @@ def run(ctx):
                 finally:
                     dlang.set_global_language_to('en')
                 cases.append(('read_jigg', 'read_jigg ja ' + X.enc_batch(batch), got, desc))
+                cases.append(('read_jigg_text', 'read_jigg_text ja ' + enc_str(text), got, desc))
                 flat = [st.tree for sent in batch for st in sent]
                 if back is None or len(back) != len(flat):
                     ctx.fail(f'Jigg XML of a Japanese derivation cannot be read back ({got[:80]})', desc, fingerprint=['jigg-read'])
